@@ -93,3 +93,43 @@ func biga(t []string) (out string) {
 	}
 	return "dst=" + digest64(dbuf) + " src=" + digest64(sbuf) + res
 }
+
+// SLIVER: a one-series view of a LARGE result block ([cells, variables, timesteps], a million elements and more), reshaped to
+// 1-D the way the generated model wrappers do, then written through; the block must see the writes and the reshaped view
+// must see later writes to the block (a reshape of a contiguous view aliases its storage, whatever the size of what is
+// behind it).
+//
+//   SLIVER <procs> <backend g|c> <cells> <vars> <T> <cell> <var> <nested 0|1> <seed>
+func sliver(t []string) (out string) {
+	defer func() {
+		if e := recover(); e != nil { out = "PANIC" }
+	}()
+	procs := atoi(t[0])
+	be := t[1]
+	cells, vars, T, cell, vr, nested, seed := atoi(t[2]), atoi(t[3]), atoi(t[4]), atoi(t[5]), atoi(t[6]), atoi(t[7]), atoi(t[8])
+	old := runtime.GOMAXPROCS(procs)
+	defer runtime.GOMAXPROCS(old)
+	dims := []int{cells, vars, T}
+	buf := make([]float64, cells*vars*T)
+	for i := range buf { buf[i] = float64((seed + i) % 1000) }
+	var root data.NDFloat64
+	if be == "c" {
+		root = cdata.NewFloat64CArray(unsafe.Pointer(&buf[0]), dims)
+	} else {
+		root = data.ArrayFromSliceFloat64(buf, dims)
+	}
+	var v data.NDFloat64
+	if nested == 1 {
+		v = root.Slice([]int{cell, 0, 0}, []int{1, vars, T}, nil).Slice([]int{0, vr, 0}, []int{1, 1, T}, nil)
+	} else {
+		v = root.Slice([]int{cell, vr, 0}, []int{1, 1, T}, nil)
+	}
+	rs := v.MustReshape([]int{T})
+	for q := 0; q < 8; q++ {
+		rs.Set([]int{(seed*7 + q*131) % T}, float64(5000+q))
+	}
+	k2 := (seed + 3) % T
+	root.Set([]int{cell, vr, k2}, 7777)
+	back := rs.Get([]int{k2})
+	return "buf=" + digest64(buf) + " back=" + strconv.FormatFloat(back, 'g', -1, 64)
+}
